@@ -128,6 +128,12 @@ theorem draw_row_columns (maxW : UInt16) (l : List Cell) (col : UInt16)
     ∀ k, k < l.length → ((drawRow maxW col l).map (·.1.toNat))[k]? = some (col.toNat + sumW (l.take k)) :=
   drawRow_spec maxW l col hpos hfit
 
+/-- `HardwrapScanner`: the scanning loop terminates on every input, and the lines hold exactly the
+cells of the input that are not a "\n" grapheme, in order (with their styles). -/
+theorem hardwrap_terminates_conserves (cells : List Cell) :
+    ∃ ls, hardLines cells = .ok ls ∧ notNl ls.flatten = notNl cells :=
+  hardAll_ok (cells.length + 1) cells (Nat.lt_succ_self _)
+
 /-- richtext: the transcribed `firstLineSegment` meets the oracle hypotheses for every pairwise
 line-break function, so the theorems above hold for `richLines` unconditionally. -/
 theorem rich_oracle_ok (lb : Nat → Nat → Bool) : OracleOK (richOracle lb) := richOracle_ok lb
